@@ -12,6 +12,9 @@ CHECKS = {
  "C03": ("exploration", "A", "deterministic simulation: real binary under libc seam vs executable reference partition model",
          "Report of the real binary must equal the reference partition (content classes filtered by the documented replica rule) for every sampled world/config/fault mode.",
          "selection restricted to unambiguous cases (C09 decides selection); reference model written from the documentation", "4/C03"),
+ "C04": ("exploration", "A", "deterministic simulation: histories on a simulated clock with actor edits injected at rendezvous points inside and between the real group and dedupe runs",
+         "Seeded histories (edit kind x position x operation x report format); in thorough additionally every recorded pause point x every edit kind x every operation on fixed scenario worlds. Oracle: content conservation from the state after the last edit.",
+         "serial group run so that a pause point is an exact position; edits always move mtime to the simulated now; kernel-level torn writes not modelled", "4/C04"),
  "C05": ("fault_enumeration", "A", "deterministic simulation: crash/errno injection at every recorded mutating call position (and pairs) of scenario worlds",
          "Exhaustive over the recorded mutating-call positions of the scenario set: crash before/after and 5 errnos at each k, plus pairs; oracle over the final inventory, warnings and the Processed count.",
          "process-kill model (completed syscalls durable); serial mode for global positions; FICLONE is an atomic stub", "4/C05"),
